@@ -173,6 +173,8 @@ func Main(args []string) error {
 		return runFindContent(w, cases, *seed, *n, *workers)
 	case "inrange":
 		return runInRange(w, *seed, *n)
+	case "findnodes":
+		return runFindNodes(w, cases, *seed, *n, *workers)
 	}
 	_ = slow
 	return fmt.Errorf("unknown mode %q", *mode)
